@@ -397,6 +397,20 @@ static int do_ostream(char *fl, char *ops, char *sc)
 /* ------------------------------------------------------------------ toy codec (same as Sqfs.IoLoops.toyProc) */
 typedef struct { xfrm_stream_t base; unsigned k; } toy_t;
 
+/* second codec (same as Sqfs.IoLoops.passProc): bytes pass through unchanged, at most 5 per call */
+static int pass_process(xfrm_stream_t *s, const void *in, sqfs_u32 in_size, void *out, sqfs_u32 out_size,
+			sqfs_u32 *in_read, sqfs_u32 *out_written, int mode)
+{
+	toy_t *t = (toy_t *)s;
+	sqfs_u32 m = in_size > 64 ? (in_size + 1) / 2 : (in_size > 5 ? 5 : in_size), n = out_size < m ? out_size : m;
+	memcpy(out, in, n);
+	t->k = (t->k + 1) % 256;
+	*in_read += n; *out_written += n;
+	if (n < m) return XFRM_STREAM_BUFFER_FULL;
+	if (mode == XFRM_STREAM_FLUSH_FULL && n == in_size) return XFRM_STREAM_END;
+	return XFRM_STREAM_OK;
+}
+
 static int toy_process(xfrm_stream_t *s, const void *in, sqfs_u32 in_size, void *out, sqfs_u32 out_size,
 		       sqfs_u32 *in_read, sqfs_u32 *out_written, int mode)
 {
@@ -412,13 +426,15 @@ static int toy_process(xfrm_stream_t *s, const void *in, sqfs_u32 in_size, void 
 
 static void toy_destroy(sqfs_object_t *o) { free(o); }
 
-static toy_t *toy_create(void)
+static toy_t *toy_create_mode(int pass)
 {
 	toy_t *t = calloc(1, sizeof(*t)); if (!t) abort();
 	sqfs_object_init(t, toy_destroy, NULL);
-	t->base.process_data = toy_process;
+	t->base.process_data = pass ? pass_process : toy_process;
 	return t;
 }
+
+static toy_t *toy_create(void) { return toy_create_mode(0); }
 
 static int ops_valid(const char *ops, const char *letters)
 {
@@ -550,14 +566,16 @@ static int do_istream(char *b, char *fl, char *d, char *ops, char *sc)
  * client ops on the member stream (no M: record_to_memory is never applied to a member stream, and its error path calls
  * get_filename, which dereferences the parent the stream has already dropped), drop, it->next.  The geometry the real read_header decodes must be the one the
  * scenario line states (the model takes it from the line). */
-static int do_tarstrm(char *b, char *fl, char *d, char *rs, char *fs, char *sp, char *ops, char *sc)
+/* bx != NULL: the archive stream is the transforming istream (pass-through codec) on top of the file istream */
+static int do_tarstrm(char *b, char *bx, char *fl, char *d, char *rs, char *fs, char *sp, char *ops, char *sc)
 {
-	sqfs_istream_t *in, *ms = NULL; sqfs_ostream_t *o; unsigned char *data; long n;
+	sqfs_istream_t *in, *arch, *ms = NULL; sqfs_ostream_t *o; unsigned char *data; long n; toy_t *codec = NULL;
+	size_t xoff = 0, xused = 0;
 	sqfs_dir_iterator_t *it; sqfs_dir_entry_t *ent = NULL;
 	size_t line_num = 0, off, used; int eof, fd, rc1, rc2 = 0, have2 = 0, st;
 	unsigned long long rsz, fsz, offs; char spbuf[512];
 	reset_os();
-	if (strtoul(b, NULL, 10) != c12_istream_bufsz()) { puts("bad-B"); return 0; }
+	if (strtoul(b, NULL, 10) != c12_istream_bufsz() || (bx && strtoul(bx, NULL, 10) != c12_xistream_bufsz())) { puts("bad-B"); return 0; }
 	if ((strcmp(fl, "s") && strcmp(fl, "n")) || !ops_valid(ops, "gRSP")) return -1;
 	if ((n = parse_data(d, &data)) < 0) return -1;
 	if (parse_script(sc)) { free(data); return -1; }
@@ -565,18 +583,24 @@ static int do_tarstrm(char *b, char *fl, char *d, char *rs, char *fs, char *sp, 
 	fd = stream_fd(0);
 	if (sqfs_istream_open_handle(&in, "in", fd, 0)) { close(fd); return -1; }
 	if (!(o = open_ostream(fl))) { sqfs_drop(in); return -1; }
-	it = tar_open_stream(in, NULL);
-	if (!it) { sqfs_drop(in); sqfs_drop(o); return -1; }
+	arch = in;
+	if (bx) {
+		codec = toy_create_mode(1);
+		arch = istream_xfrm_create(in, (xfrm_stream_t *)codec);
+		if (!arch) { sqfs_drop(in); sqfs_drop(codec); sqfs_drop(o); return -1; }
+	}
+	it = tar_open_stream(arch, NULL);
+	if (!it) { if (bx) { sqfs_drop(arch); sqfs_drop(codec); } sqfs_drop(in); sqfs_drop(o); return -1; }
 	rc1 = it->next(it, &ent);
 	printf("n1=%d ", rc1);
 	if (rc1 == 0) {
 		c12_peek_tar(it, &st, &rsz, &fsz, &offs, spbuf, sizeof(spbuf));
 		if (rsz != strtoull(rs, NULL, 10) || fsz != strtoull(fs, NULL, 10) || strcmp(spbuf, sp)) {
 			printf("bad-hdr decoded=%llu,%llu,%s\n", rsz, fsz, spbuf);
-			free(ent); sqfs_drop(it); sqfs_drop(in); sqfs_drop(o);
+			free(ent); sqfs_drop(it); if (bx) { sqfs_drop(arch); sqfs_drop(codec); } sqfs_drop(in); sqfs_drop(o);
 			return 0;
 		}
-		if (it->open_file_ro(it, &ms) != 0) { puts("bad-open"); free(ent); sqfs_drop(it); sqfs_drop(in); sqfs_drop(o); return 0; }
+		if (it->open_file_ro(it, &ms) != 0) { puts("bad-open"); free(ent); sqfs_drop(it); if (bx) { sqfs_drop(arch); sqfs_drop(codec); } sqfs_drop(in); sqfs_drop(o); return 0; }
 		run_client_ops(ms, o, ops, &line_num);
 		sqfs_drop(ms);
 		free(ent); ent = NULL;
@@ -586,10 +610,11 @@ static int do_tarstrm(char *b, char *fl, char *d, char *rs, char *fs, char *sp, 
 	c12_peek_tar(it, &st, &rsz, &fsz, &offs, spbuf, sizeof(spbuf));
 	if (have2) printf("n2=%d", rc2); else fputs("n2=-", stdout);
 	printf(" it=%d,%llu,%llu ", st, rsz, offs);
+	if (bx) { c12_peek_xistream(arch, &xoff, &xused); printf("xst=%zu,%zu,%u ", xoff, xused, codec->k); }
 	c12_peek_istream(in, &eof, &off, &used);
 	printf("st=%d,%zu,%zu ", eof, off, used); print_ostream(o);
 	print_tail();
-	sqfs_drop(it); sqfs_drop(in); sqfs_drop(o);
+	sqfs_drop(it); if (bx) { sqfs_drop(arch); sqfs_drop(codec); } sqfs_drop(in); sqfs_drop(o);
 	return 0;
 }
 
@@ -599,8 +624,8 @@ int main(void)
 	if (ft && ft[0]) g_fdtype = ft[0];
 	char *line = NULL; size_t cap = 0;
 	while (getline(&line, &cap, stdin) > 0) {
-		char *w[10]; int n = 0; char *save = NULL, *p;
-		for (p = strtok_r(line, " \n", &save); p && n < 10; p = strtok_r(NULL, " \n", &save)) w[n++] = p;
+		char *w[12]; int n = 0; char *save = NULL, *p;
+		for (p = strtok_r(line, " \n", &save); p && n < 12; p = strtok_r(NULL, " \n", &save)) w[n++] = p;
 		int r = -1;
 		alarm(120);            /* per scenario: a loop that never ends is a result (SIGALRM), not a hang of the check */
 		if (n == 1 && !strcmp(w[0], "bufsz")) { printf("%zu\n", c12_istream_bufsz()); r = 0; }
@@ -611,7 +636,8 @@ int main(void)
 		else if (n == 7 && !strcmp(w[0], "xistream")) r = do_xistream(w[1], w[2], w[3], w[4], w[5], w[6]);
 		else if (n == 5 && !strcmp(w[0], "xostream")) r = do_xostream(w[1], w[2], w[3], w[4]);
 		else if (n == 1 && !strcmp(w[0], "xbufsz")) { printf("%zu %zu\n", c12_xistream_bufsz(), c12_xostream_bufsz()); r = 0; }
-		else if (n == 9 && !strcmp(w[0], "tarstrm")) r = do_tarstrm(w[1], w[2], w[3], w[4], w[5], w[6], w[7], w[8]);
+		else if (n == 9 && !strcmp(w[0], "tarstrm")) r = do_tarstrm(w[1], NULL, w[2], w[3], w[4], w[5], w[6], w[7], w[8]);
+		else if (n == 10 && !strcmp(w[0], "xtarstrm")) r = do_tarstrm(w[1], w[2], w[3], w[4], w[5], w[6], w[7], w[8], w[9]);
 		else if (n == 1 && !strcmp(w[0], "fdtype")) {
 			/* what the stream descriptors of this process really are */
 			struct stat sb; int fd = stream_fd(0);
